@@ -81,21 +81,12 @@ def same_alias_cases(n, seed):
 def classify(tags, dialect, missing, unexpected, exp):
     """narrow shapes of listed findings; anything else is a violation"""
     t = set(tags)
-    # KF-01 seen from the column side: the alias of a relation lost by a mixed comma/JOIN FROM clause falls through to a table name
-    if "from.mixed_comma_join" in t:
-        return "KF-01"
-    # KF-36: the alias of the first relation inside a parenthesised join group is not registered: its qualifier falls through to a table name
-    if "join.parenthesised_group_first_aliased" in t and unexpected and all(u[0].startswith("<default>.x") or u[0].startswith("<") for u in unexpected):
-        return "KF-36"
     # KF-05: a set operation whose first branch has a source-less (literal) item mis-attributes later branches
     if "setop.first_branch_literal" in t:
         return "KF-05"
     # KF-06: two relations with the same bare name in scope: a qualifier resolves to the wrong one
     if "from.same_bare_name_twice" in t:
         return "KF-06"
-    # KF-24: tables joined inside a derived table leak into the enclosing scope's candidates when that derived table is itself joined
-    if "join.derived_with_inner_join" in t and any(u[0].startswith("<") for u in unexpected) and all(m[0].startswith("<") for m in missing):
-        return "KF-24"
     return None
 
 
